@@ -28,8 +28,11 @@ EXTENDS Integers, Sequences, FiniteSets, TLC, Json, PoWProp
 CONSTANTS N,        \* largest tree (headers below the root)
           NMin,     \* smallest tree chosen in Init
           Adj,      \* allowed difficulty steps of a child ("all" family)
-          D0,       \* difficulty (= total difficulty) of the trust root
-          Family,   \* "all": every labelled tree; "shortheavy[-sample]": two chains LA (slow) / LB (fast) interleaved
+          D0,       \* difficulty of the trust root
+          Rule,     \* "eth": difficulty by the Ethereum adjustment rule, root td = D0, stale index entries kept;
+                    \* "btc": work 2^(level+1), level = parent's level + adj within 0..4 (regtest headers choose their
+                    \*        bits), root total work 0, index entries above a lower new tip deleted (header_sync/btc)
+          Family,   \* "all": every labelled tree NMin..N; "shortheavy[-sample]": two chains LA (slow) / LB (fast); "quickmix"
           LA, LB, AdjA, AdjB,
           InOrder,  \* TRUE: headers become stored in label order (generation); FALSE: any order (model checking)
           EmitOn
@@ -52,7 +55,12 @@ Max(a, b) == IF a > b THEN a ELSE b
 (* the universe ************************************************************)
 ParSets(nn) == {p \in [1..nn -> 0..(nn - 1)] : \A i \in 1..nn : p[i] < i}
 RECURSIVE DiffOf(_, _, _)
-DiffOf(p, a, x) == IF x = 0 THEN D0
+RECURSIVE LevelOf(_, _, _)
+TD0 == IF Rule = "btc" THEN 0 ELSE D0
+KeepStale == Rule # "btc"
+LevelOf(p, a, x) == IF x = 0 THEN 2 ELSE LET l == LevelOf(p, a, p[x]) + a[x] IN IF l < 0 THEN 0 ELSE IF l > 4 THEN 4 ELSE l
+DiffOf(p, a, x) == IF Rule = "btc" THEN 2 ^ (LevelOf(p, a, x) + 1)
+                   ELSE IF x = 0 THEN D0
                    ELSE LET pd == DiffOf(p, a, p[x]) IN Max(pd + (pd \div 2048) * a[x], MinDiff)
 RECURSIVE HtOf(_, _)
 HtOf(p, x) == IF x = 0 THEN 0 ELSE HtOf(p, p[x]) + 1
@@ -61,17 +69,22 @@ MkTree(nn, p, a) == [n |-> nn, par |-> p, adj |-> a,
                      ht |-> [x \in 0..nn |-> HtOf(p, x)]]
 (* two chains from the root: the labels in B form the fast chain, the others the slow one *)
 PrevIn(S, i) == LET L == {j \in S : j < i} IN IF L = {} THEN 0 ELSE CHOOSE j \in L : \A k \in L : k <= j
-(* "shortheavy": every interleaving; "shortheavy-sample": the fast chain submitted as one block at every position of
-   the slow one, and the two alternating *)
-BSets == LET nn == LA + LB IN
-         IF Family = "shortheavy" THEN {S \in SUBSET (1..nn) : Cardinality(S) = LB}
-         ELSE {lo..(lo + LB - 1) : lo \in 1..(LA + 1)} \cup {{2 * i : i \in 1..LB}} \cup {{2 * i - 1 : i \in 1..LB}}
-ChainTrees == LET nn == LA + LB IN
+(* two chains: "shortheavy": every interleaving; "shortheavy-sample": the fast chain submitted as one block at every
+   position of the slow one, and the two alternating *)
+BSets(la, lb, sample) ==
+    LET nn == la + lb IN
+    IF ~sample THEN {S \in SUBSET (1..nn) : Cardinality(S) = lb}
+    ELSE {lo..(lo + lb - 1) : lo \in 1..(la + 1)} \cup {{2 * i : i \in 1..lb}} \cup {{2 * i - 1 : i \in 1..lb}}
+ChainTreesOf(la, lb, sample) == LET nn == la + lb IN
     { MkTree(nn, [i \in 1..nn |-> IF i \in B THEN PrevIn(B, i) ELSE PrevIn((1..nn) \ B, i)],
-                 [i \in 1..nn |-> IF i \in B THEN AdjB ELSE AdjA]) : B \in BSets }
-AllTrees == UNION { {MkTree(nn, p, a) : p \in ParSets(nn), a \in [1..nn -> Adj]} : nn \in NMin..N }
-Trees == IF Family = "all" THEN AllTrees ELSE ChainTrees
-MaxN == IF Family = "all" THEN N ELSE LA + LB
+                 [i \in 1..nn |-> IF i \in B THEN AdjB ELSE AdjA]) : B \in BSets(la, lb, sample) }
+AllTreesOf(lo, hi, A) == UNION { {MkTree(nn, p, a) : p \in ParSets(nn), a \in [1..nn -> A]} : nn \in lo..hi }
+Trees == CASE Family = "all" -> AllTreesOf(NMin, N, Adj)
+           [] Family = "shortheavy" -> ChainTreesOf(LA, LB, FALSE)
+           [] Family = "shortheavy-sample" -> ChainTreesOf(LA, LB, TRUE)
+           [] Family = "quickmix" -> AllTreesOf(5, 5, Adj2) \cup AllTreesOf(4, 4, Adj3)      \* the quick tier in one TLC run
+                                     \cup ChainTreesOf(7, 6, TRUE) \cup ChainTreesOf(10, 8, TRUE)
+MaxN == tree.n
 
 Par(x) == IF x = 0 THEN None ELSE tree.par[x]
 Ht(x) == tree.ht[x]
@@ -99,7 +112,8 @@ Restruct(mn, hh, new) ==
         b    == PhaseB(<<>>, new, ti, si)
         c    == PhaseC(mn, b.stack, cur, b.new, si)
         L    == Len(c.stack)
-    IN [main |-> [x \in DOMAIN mn |-> IF x >= c.lvl /\ x < c.lvl + L THEN c.stack[L - (x - c.lvl)] ELSE mn[x]],
+    IN [main |-> [x \in DOMAIN mn |-> IF x >= c.lvl /\ x < c.lvl + L THEN c.stack[L - (x - c.lvl)]
+                                       ELSE IF ~KeepStale /\ x >= c.lvl + L THEN None ELSE mn[x]],
         headH |-> c.lvl + L - 1]
 
 (* one header through SyncBlockHeader *************************************)
@@ -134,7 +148,7 @@ SubmitBadHeight(p, off) == off # 0 /\ UNCHANGED vars
 
 Init == /\ tree \in Trees
         /\ stored = {0}
-        /\ td = [x \in 0..tree.n |-> IF x = 0 THEN D0 ELSE 0]
+        /\ td = [x \in 0..tree.n |-> IF x = 0 THEN TD0 ELSE 0]
         /\ main = [x \in 0..MaxN |-> IF x = 0 THEN 0 ELSE None]
         /\ headH = 0
         /\ hist = <<>>
@@ -149,7 +163,7 @@ View == <<tree, stored, td, main, headH>>
 (* generation: one line per labelled tree = the whole parent-first behaviour with every predicted state *)
 Emit == IF EmitOn /\ Cardinality(stored) = tree.n + 1
         THEN PrintT(<<"TRACE", ToJson([n |-> tree.n, par |-> tree.par, adj |-> tree.adj, diff |-> [i \in 1..tree.n |-> tree.diff[i]],
-                                       d0 |-> D0, v0 |-> [j \in Hdrs |-> IF tree.par[j] = 0 THEN "A" ELSE "R"], steps |-> hist])>>) /\ FALSE
+                                       d0 |-> D0, td0 |-> TD0, v0 |-> [j \in Hdrs |-> IF tree.par[j] = 0 THEN "A" ELSE "R"], steps |-> hist])>>) /\ FALSE
         ELSE TRUE
 
 (* PropC27: the monitor (clauses in PoWProp.tla) applied to the model state ***)
